@@ -3194,6 +3194,9 @@ def groupby_scan(
             "`array` and `by` must have the same length along the scanned axis. "
             f"Received array of shape {array.shape} but `by` has shape {by_.shape}."
         )
+    if agg.name in ["cumsum", "nancumsum"] and not is_duck_dask_array(by_) and (by_ == -1).any():
+        # the cumulative-sum kernel has no slot for the missing-label code (ffill / bfill keep it as a group of its own)
+        raise ValueError(f"func={agg.name!r} does not support missing labels (NaN / NaT) in `by`.")
 
     if array.dtype.kind in "Mm":
         cast_to = array.dtype
